@@ -425,8 +425,11 @@ def fault_surely_happened(sc, obs):
     if k == 'stdin':
         if not st.get('stdin_closed') or st.get('rc') != 65:
             return None if st.get('stdin_closed') else False
-        w = work_done_before(obs, sc)
-        return True if w is False else None
+        # Closing the doer's stdin does not stop it at once: its watchdog THREAD notices the end of file and exits the process a
+        # moment later, while the main thread keeps executing what is queued.  Whether the remaining commands (at least the final
+        # marker) still complete - and the sync is then complete and correctly reported with status 0 - cannot be decided from
+        # outside (false alarm seen once: stdin closed after the last file command, the marker echo still made it).
+        return None
     if k == 'cut':
         cs = obs.get('cut_stats')
         if not cs or not cs.get('did_cut'):
